@@ -5,6 +5,8 @@ and store everything under /verif/seeded/<name>/."""
 import json, os, subprocess, sys, shutil, re, time
 prop, cdir, name = sys.argv[1], sys.argv[2], sys.argv[3]
 checks = sys.argv[4:] or [prop]
+if subprocess.run('git -C /repo status --porcelain', shell=True, capture_output=True, text=True).stdout.strip():
+    sys.exit('refusing: /repo has uncommitted changes (the evaluation ends with git checkout -- .)')
 ENV = dict(os.environ, GOFLAGS="-mod=mod", GOPROXY="off", GOSUMDB="off")
 def sh(cmd, cwd=None, timeout=1800):
     r = subprocess.run(cmd, shell=True, cwd=cwd, env=ENV, stdout=subprocess.PIPE, stderr=subprocess.STDOUT, text=True, timeout=timeout)
